@@ -295,7 +295,7 @@ pub fn copies_case(a: &[u8], b: &[u8]) -> Option<Violation> {
 }
 
 pub fn tokens() -> Vec<Vec<u8>> {
-	let mut v: Vec<Vec<u8>> = ["data:", "dat", ":", ",", ";", "base64", "base64,", "BASE64,", "bAse64", "a", "/", "#", "?", "%41", "%", "=", "A", " ", "QQ==", "QR==", "QUJ=", "-A==", "_w==", "+"].iter().map(|s| domains::b(s)).collect();
+	let mut v: Vec<Vec<u8>> = ["data:", "dat", ":", ",", ";", "base64", "base64,", "BASE64,", "bAse64", "a", "/", "#", "?", "%41", "%", "=", "A", " ", "QQ==", "QR==", "QUJ=", "-A==", "_w==", "+", ";charset="].iter().map(|s| domains::b(s)).collect();
 	v.push(vec![0xC3, 0xA9]); // raw non-ASCII bytes
 	v
 }
@@ -309,7 +309,7 @@ struct Slot {
 pub fn run(ctx: &Ctx) -> Report {
 	let refs = Refs::new(&ctx.root);
 	let mut total = Report::new();
-	total.rule = "all sequences of <= n tokens over {data: dat : , ; base64 base64, BASE64, bAse64 a / # ? %41 % = A SP QQ== QR== QUJ= -A== _w== + é(raw bytes)} as byte strings: both constructors and four string routes agree; acceptance implies URI validity (reference DFA) and the data-URL shape (media type over RFC 6838 name characters and '/', RFC 2397 parameters allowed, no '%' outside a parameter value); for accepted values borrowed, owned and owned-through-Deref views (media_type, is_base_64_encoded, encoded_data, parts, decoded_data) coincide and reassemble the text; decoded data equals an independent RFC 4648 decoder; a watchdog turns a non-terminating accessor into a violation; non-trivial = distinct byte string".into();
+	total.rule = "all sequences of <= n tokens over {data: dat : , ; base64 base64, BASE64, bAse64 a / # ? %41 % = A SP QQ== QR== QUJ= -A== _w== + ;charset= é(raw bytes)} as byte strings: both constructors and four string routes agree; acceptance implies URI validity (reference DFA) and the data-URL shape (media type over RFC 6838 name characters and '/', RFC 2397 parameters allowed, no '%' outside a parameter value); for accepted values borrowed, owned and owned-through-Deref views (media_type, is_base_64_encoded, encoded_data, parts, decoded_data) coincide and reassemble the text; decoded data equals an independent RFC 4648 decoder; a watchdog turns a non-terminating accessor into a violation; non-trivial = distinct byte string".into();
 	let n = ctx.pick(5usize, 6usize);
 	let toks = tokens();
 	let shards = domains::raw_shard_count(toks.len());
